@@ -61,10 +61,9 @@ theorem adds_ext {f a b r} (h : merge f a b = .ok r) (i : Nat) (hx : i < a.ext.l
   rw [(merge_ok h).2.2.2.2.1]; exact addExt_get _ _ i hx hy
 
 /-- Fuel mass is added per fuel kind … -/
-theorem adds_fuel {f a b r} (h : merge f a b = .ok r) (ha : WellFormed a.fuel)
-    (hb : WellFormed b.fuel) (k : Kind) :
+theorem adds_fuel {f a b r} (h : merge f a b = .ok r) (k : Kind) :
     massOf k r.fuel = massOf k a.fuel + massOf k b.fuel := by
-  rw [(merge_ok h).2.2.2.2.2.1, add_eq_spec _ _ hb]; exact massOf_addSpec k _ _ ha
+  rw [(merge_ok h).2.2.2.2.2.1]; exact massOf_add k _ _
 
 /-- … the CO2-equivalent components are added … -/
 theorem adds_co2 {f a b r} (h : merge f a b = .ok r) :
@@ -285,7 +284,6 @@ def Coherent (a : Result) : Prop := a.loadRatio = none → a.duration = none
 
 structure Good (a : Result) : Prop where
   pos : Pos a.duration
-  fuel : WellFormed a.fuel
   emis : WFo a.emis
 
 /-- Consecutive-period combination always succeeds on results with positive durations … -/
@@ -308,7 +306,7 @@ theorem good_extend {a b r : Result} (ha : Good a) (hb : Good b) (h : merge fals
     Good r := by
   rw [merge_extend_eq a b ha hb] at h
   injection h with h; subst h
-  refine ⟨pos_durE ha.pos hb.pos, C18.add_wellFormed _ _ ha.fuel hb.fuel, ?_⟩
+  refine ⟨pos_durE ha.pos hb.pos, ?_⟩
   intro r hr
   cases hea : a.emis <;> cases heb : b.emis <;> simp only [hea, heb, optE] at hr
   · cases hr
@@ -330,7 +328,7 @@ theorem extend_assoc (a b c ab bc l r : Result) (ha : Good a) (hb : Good b) (hc 
   rw [merge_extend_eq a _ ha gbc] at h4; injection h4 with h4; subst h4
   refine ⟨?_, addExt_assoc _ _ _, loadE_assoc _ _ _ _ _ _ ha.pos hb.pos hc.pos ca cb cc,
     species_assoc _ _ _ ha.emis hb.emis, optE_assoc _ List.append_assoc _ _ _,
-    fun k => C18.add_assoc k _ _ _ ha.fuel hb.fuel hc.fuel, ghg_add_assoc _ _ _⟩
+    fun k => C18.add_assoc k _ _ _, ghg_add_assoc _ _ _⟩
   show durE (durE a.duration b.duration) c.duration = durE a.duration (durE b.duration c.duration)
   cases a.duration <;> cases b.duration <;> cases c.duration <;> simp [durE, add_assoc]
 
@@ -383,7 +381,6 @@ theorem mergeLoad_freeze (da db la lb : Option Rat) :
   cases la <;> cases lb <;> simp [mergeLoad, optMerge, optE, Except.map]
 
 theorem freeze_assoc (a b c ab bc l r : Result)
-    (wa : WellFormed a.fuel) (wb : WellFormed b.fuel) (wc : WellFormed c.fuel)
     (ea : WFo a.emis) (eb : WFo b.emis)
     (h1 : merge true a b = .ok ab) (h2 : merge true ab c = .ok l)
     (h3 : merge true b c = .ok bc) (h4 : merge true a bc = .ok r) : Equiv l r := by
@@ -404,7 +401,7 @@ theorem freeze_assoc (a b c ab bc l r : Result)
   · rw [← l2, ← l4, ← l1, ← l3]; exact optE_assoc _ max_assoc _ _ _
   · intro k; rw [← e2, ← e4, ← e1, ← e3]; exact species_assoc _ _ _ ea eb k
   · rw [← t2, ← t4, ← t1, ← t3]; exact optE_assoc _ List.append_assoc _ _ _
-  · intro k; rw [f2, f4, f1, f3]; exact C18.add_assoc k _ _ _ wa wb wc
+  · intro k; rw [f2, f4, f1, f3]; exact C18.add_assoc k _ _ _
   · rw [c2, c4, c1, c3]; exact ghg_add_assoc _ _ _
 
 /-! ### Non-vacuity, and what the hypotheses exclude -/
